@@ -76,7 +76,7 @@ func c19burntChild(c *ctx) {
 				s.AddConnection(cn)
 				return s, cn
 			}
-			A, _ := mk(1)
+			A, sinkA := mk(1)
 			B, sinkB := mk(2)
 			stop := make(chan struct{})
 			var wg sync.WaitGroup
@@ -117,18 +117,23 @@ func c19burntChild(c *ctx) {
 			}()
 			time.Sleep(time.Second)
 			if closeA {
-				A.Close()
+				// the client goes away: session A's connection is lost, its receive loop tears the session down at once
+				// (passiveClose: the switchboard is broken from this moment on; a local Close would first queue its notice
+				// behind the waiting senders and let their frames out)
+				sinkA.Close()
 			}
 			time.Sleep(11 * time.Second)
-			got := sinkB.between(2*time.Second, 12*time.Second)
+			// what the USER is sent: on either session's connection (a frame of the closed session that still goes out
+			// before its connections are closed is a frame the user gets)
+			got := sinkB.between(2*time.Second, 12*time.Second) + sinkA.between(2*time.Second, 12*time.Second)
 			want := rate * 10
 			c.o.stat("burnt_cases", 1)
-			c.o.sample(fmt.Sprintf("burnt tokens: rate %d B/s, %d backlogged streams on the closed session, the user's other session was sent %d B in [2s,12s) (rate x t = %d)", rate, K, got, want))
+			c.o.sample(fmt.Sprintf("burnt tokens: rate %d B/s, %d backlogged streams on the closed session, the user was sent %d B in [2s,12s) on both sessions together (rate x t = %d)", rate, K, got, want))
 			if got < want/2 {
 				c.o.V("C19 held-below-rate tokens-burnt-by-a-closed-session", map[string]any{"rate": rate, "streams_waiting_in_the_closed_session": K,
 					"sent_to_the_user_in_2s_12s": got, "rate_times_t": want,
 					"what": "a session with K writers waiting for their turn in the user's token bucket was closed; their reservations (about K x 16 KB) stay deducted although nothing is sent for them, and the backlogged sender of the user's other session waits behind them",
-					"replay": fmt.Sprintf("v := MakeValve(%d, %d); sessions A, B with Valve v; %d streams on A each in a Write loop of 16000 B; one stream on B in a Write loop of 1000 B; t=1s: A.Close(); bytes written to B's connection in [2s,12s)", rate, rate, K)})
+					"replay": fmt.Sprintf("v := MakeValve(%d, %d); sessions A, B with Valve v; %d streams on A each in a Write loop of 16000 B; one stream on B in a Write loop of 1000 B; t=1s: A's connection is lost (passiveClose); bytes written to the two sessions' connections in [2s,12s)", rate, rate, K)})
 			}
 			close(stop)
 			B.Close()
